@@ -436,7 +436,7 @@ theorem growOne_shape (w : W) (n : Nat) (h : Shape n w.pool) :
     refine ⟨?_, by rw [(availChange_frame _ _ _).poolSize]⟩
     rw [(availChange_frame _ _ _).pool]
     simp only
-    have hnone : getW w.pool ({ wid := n, actor := w.nextAid, disc := w.workerDiscard w.disc } : WP).wid = none := hg
+    have hnone : getW w.pool ({ wid := n, actor := w.nextAid, disc := w.workerDiscard w.disc, handler := w.handler } : WP).wid = none := hg
     refine ⟨nodupW_append_new hnone h.nodup, ?_, ?_, ?_⟩
     · intro wid hlt
       rw [hasW_iff_mem, List.map_append, List.mem_append]
@@ -721,6 +721,24 @@ theorem Shape.map_disc {n : Nat} {pool : List WP} (h : Shape n pool) (d : Option
     obtain ⟨y, hy, rfl⟩ := List.mem_map.mp hx
     exact h.extra y hy hle
 
+theorem Shape.map_handler {n : Nat} {pool : List WP} (h : Shape n pool) (d : Option Nat) :
+    Shape n (pool.map fun p => { p with handler := d }) := by
+  refine ⟨?_, ?_, ?_, ?_⟩
+  · unfold NodupW; rw [List.map_map]; exact h.nodup
+  · intro wid hlt
+    have := h.full wid hlt
+    rw [hasW_iff_mem] at this ⊢
+    rw [List.map_map]; exact this
+  · intro x hx hlt
+    obtain ⟨y, hy, rfl⟩ := List.mem_map.mp hx
+    exact h.inner y hy hlt
+  · intro x hx hle
+    obtain ⟨y, hy, rfl⟩ := List.mem_map.mp hx
+    exact h.extra y hy hle
+
+theorem shapeInv_setHandler (w : W) (hd : Option Nat) (h : ShapeInv w) : ShapeInv (w.setHandler hd) :=
+  Shape.map_handler h hd
+
 theorem shapeInv_updateSettings (w : W) (d : Option (Option (Nat × Mode))) (n : Option Nat) (h : ShapeInv w) :
     ShapeInv (w.updateSettings d n) := by
   unfold W.updateSettings
@@ -799,6 +817,7 @@ theorem shapeInv_handleMsg (w : W) (m : FMsg) (h : ShapeInv w) : ShapeInv (w.han
   | finished who key => exact shapeInv_workerFinishedJob w who key h
   | adjust n => exact shapeInv_resizePool w n h
   | updateSettings d n => exact shapeInv_updateSettings w d n h
+  | setHandler hd => exact shapeInv_setHandler w hd h
   | drainRequests => exact h.of_pool rfl rfl
   | calculate =>
     show ShapeInv (if w.cfg.hasCC && w.armed then { w with armed := false, blocked := true } else w.calcRest)
@@ -920,6 +939,7 @@ theorem shapeInv_applyOp (w : W) (op : Op) (h : ShapeInv w) : ShapeInv (w.applyO
       | none => exact h.of_pool rfl rfl
       | some n => exact h.of_pool rfl rfl
   | drain => exact shapeInv_send _ _ (h.of_pool rfl rfl)
+  | setHandler hd => exact shapeInv_send _ _ (h.of_pool rfl rfl)
   | advance => exact h
   | block => exact h.of_pool rfl rfl
   | release n =>
@@ -979,7 +999,8 @@ theorem shapeInv_init (c : CaseCfg) : ShapeInv (init c) := by
           let lc : LeakyBucket.Cfg := ⟨r.1, r.2.1, r.2.2.1, 10 ^ 40⟩
           (lc, LeakyBucket.new lc (some r.2.2.2) 0),
        queue := [], disc := c.disc, drain := .notDraining,
-       env := { actors := [], log := [], now := 0, hasHandler := c.cfg.hasHandler, sup := [] },
+       handler := if c.cfg.hasHandler then some 0 else none,
+       env := { actors := [], log := [], now := 0, sup := [] },
        nextAid := 0, stopSignal := false, stopped := false, inbox := [], blocked := false, armed := false,
        nextCalc := CALCULATE_FREQUENCY, answers := [], lastWq := none } : W) c.n h0
   have hs := this.1
